@@ -428,6 +428,20 @@ fn compilable() -> bool { COMPILABLE.load(std::sync::atomic::Ordering::Relaxed) 
 const EASINGS: [&str; 6] = ["P:Easing::OutQuad", "P:Easing::Linear", "P:Easing::InOutBack", "P:Easing::Ease", "P:my::easing::CUSTOM", "P:Linear"];
 
 fn gen_num(r: &mut Rng) -> String {
+    if !compilable() && r.chance(1, 14) {
+        // other spellings of the same numbers: radix prefixes (hex digits a–d only, so that a unit `s`/`ms`/`x` or an `e`
+        // cannot be mistaken for a digit), upper-case exponent, leading zeros, many digits, integers beyond 2^24
+        return match r.below(8) {
+            0 => format!("0x{:x}", r.below(14)),
+            1 => format!("0x{}{}", ["a", "1b", "c0", "2d", "10", "ff"][r.below(5) as usize], ""),
+            2 => format!("0b{}", ["0", "1", "11", "101", "1_0000"][r.below(5) as usize]),
+            3 => format!("0o{}", ["0", "7", "17", "100"][r.below(4) as usize]),
+            4 => format!("{}E{}", 1 + r.below(9), r.below(3)),
+            5 => format!("000{}", r.below(100)),
+            6 => ["16777217", "33554433", "4294967297", "0.30000001192092896", "1.00000011920928955"][r.below(5) as usize].to_string(),
+            _ => format!("{}.{:09}", r.below(3), r.below(1_000_000_000)),
+        };
+    }
     match r.below(8) {
         0 => r.below(20).to_string(),
         1 => format!("{}.{}", r.below(10), r.below(1000)),
